@@ -1741,21 +1741,47 @@ def rw_keyword_to_positional(func, k):
         if not isinstance(c, ast.Call) or not c.keywords or any(isinstance(a, ast.Starred) for a in c.args):
             continue
         nm = c.func.attr if isinstance(c.func, ast.Attribute) else (c.func.id if isinstance(c.func, ast.Name) else None)
-        sig = PACKAGE_SIGNATURES.get(nm) or KNOWN_SIGNATURES.get(nm)
+        root = c.func
+        while isinstance(root, ast.Attribute):
+            root = root.value
+        library = isinstance(c.func, ast.Attribute) and isinstance(root, ast.Name) and root.id in ('np', 'anp', 'numpy', 'scipy', 'math', 'struct', 'warnings', 'rng', 'gzip', 'json', 'pickle')
+        local_sig = None
+        for d_ in ast.walk(func):
+            if isinstance(d_, FuncDef) and d_.name == nm and d_ is not func and isinstance(c.func, ast.Name) and not (d_.args.vararg or d_.args.posonlyargs):
+                local_sig = [x.arg for x in d_.args.args]
+        sig = local_sig or (KNOWN_SIGNATURES.get(nm) if library else (PACKAGE_SIGNATURES.get(nm) or KNOWN_SIGNATURES.get(nm)))
         if not sig:
             continue
-        is_method = isinstance(c.func, ast.Attribute) and nm in PACKAGE_SIGNATURES and PACKAGE_SIGNATURES[nm] and PACKAGE_SIGNATURES[nm][0] in ('self', 'cls')
+        is_method = (not library) and local_sig is None and isinstance(c.func, ast.Attribute) and nm in PACKAGE_SIGNATURES and sig is PACKAGE_SIGNATURES[nm] and sig and sig[0] in ('self', 'cls')
         params = sig[1:] if is_method else sig
         pos = len(c.args)
         j = 0
         while j < len(c.keywords) and pos + j < len(params) and c.keywords[j].arg == params[pos + j]:
             j += 1
-            sites.append((c, j))
+            sites.append(([(c, j)], None))
+    # all convertible calls of one statement together (a line with several internal calls)
+    single = list(sites)
+    for owner, fld, blk in blocks_of(func):
+        for st in blk:
+            if any(isinstance(getattr(st, f, None), list) and f in _BODY_FIELDS for f in st._fields):
+                continue
+            inside = {id(n) for n in ast.walk(st)}
+            best = {}
+            for grp, _ in single:
+                c, j = grp[0]
+                if id(c) in inside:
+                    best[id(c)] = (c, max(j, best.get(id(c), (c, 0))[1]))
+            if len(best) > 1:
+                sites.append((list(best.values()), None))
     if k >= len(sites):
         return False
-    c, j = sites[k]
-    for _ in range(j):
-        c.args.append(c.keywords.pop(0).value)
+    for c, j in sites[k][0]:
+        for _ in range(j):
+            kw = c.keywords.pop(0)
+            v = kw.value
+            if kw.arg == 'args' and isinstance(v, ast.Tuple) and len(v.elts) == 1:
+                v = v.elts[0]           # scipy wraps a single extra argument into a tuple itself
+            c.args.append(v)
     return True
 
 
@@ -1865,7 +1891,37 @@ def rw_range_min_guard(func, k):
     return True
 
 
-GUIDED = [rw_extract_temp, rw_flatten_comp_filter, rw_first_of_concat, rw_split_tuple_assign, rw_augcomp_to_loop, rw_len_zero, rw_bool_ifexp, rw_singleton_comp, rw_ndenumerate_value, rw_flat_to_ndenumerate, rw_slice_zero, rw_flip_compare, rw_keyword_to_positional, rw_fstring_to_percent, rw_np_all_any, rw_range_min_guard, rw_pass_branch, rw_dictcomp_to_loop, rw_none_flag, rw_argcomp_to_loop, rw_hoist_return, rw_get_none, rw_else_after_exit_wrap, rw_else_after_exit_unwrap, rw_comp_to_loop, rw_loop_to_comp, rw_not_compare, rw_demorgan, rw_swap_branches, rw_merge_nested_if, rw_split_and_if, rw_guard_to_swapped_else, rw_swapped_else_to_guard, rw_drop_tail_return, rw_add_tail_return, rw_element_to_index_loop, rw_fuse_loops, rw_late_publication, rw_drop_tail_continue, rw_items_loop, rw_filter_loop, rw_loop_to_update, rw_is_false, rw_hoist_common_tail, rw_sink_common_tail, rw_ifexp_to_if, rw_if_to_ifexp, rw_bool_to_if, rw_kwargs_default, rw_trailing_return, rw_enumerate, rw_return_temp]
+def rw_membership_container(func, k):
+    """x in (a, b)  <->  x in [a, b]"""
+    sites = [n for n in ast.walk(func) if isinstance(n, ast.Compare) and len(n.ops) == 1 and isinstance(n.ops[0], (ast.In, ast.NotIn)) and isinstance(n.comparators[0], (ast.Tuple, ast.List))]
+    # one site per statement as well (several membership tests on one line)
+    if k >= len(sites) * 2:
+        return False
+    if k < len(sites):
+        group = [sites[k]]
+    else:
+        n0 = sites[k - len(sites)]
+        par = parents_of(func)
+        st = n0
+        while st is not None and not isinstance(st, ast.stmt):
+            st = par.get(st)
+        hdr = []
+        if st is not None:
+            for f, v in ast.iter_fields(st):
+                if f in _BODY_FIELDS:
+                    continue
+                if isinstance(v, ast.AST):
+                    hdr.extend(ast.walk(v))
+        ids = {id(x) for x in hdr}
+        group = [n for n in sites if id(n) in ids] or [n0]
+    for n in group:
+        c = n.comparators[0]
+        new = ast.List(elts=c.elts, ctx=ast.Load()) if isinstance(c, ast.Tuple) else ast.Tuple(elts=c.elts, ctx=ast.Load())
+        n.comparators[0] = fix(new, c)
+    return True
+
+
+GUIDED = [rw_extract_temp, rw_flatten_comp_filter, rw_first_of_concat, rw_split_tuple_assign, rw_augcomp_to_loop, rw_len_zero, rw_bool_ifexp, rw_singleton_comp, rw_ndenumerate_value, rw_flat_to_ndenumerate, rw_slice_zero, rw_flip_compare, rw_keyword_to_positional, rw_fstring_to_percent, rw_np_all_any, rw_range_min_guard, rw_membership_container, rw_pass_branch, rw_dictcomp_to_loop, rw_none_flag, rw_argcomp_to_loop, rw_hoist_return, rw_get_none, rw_else_after_exit_wrap, rw_else_after_exit_unwrap, rw_comp_to_loop, rw_loop_to_comp, rw_not_compare, rw_demorgan, rw_swap_branches, rw_merge_nested_if, rw_split_and_if, rw_guard_to_swapped_else, rw_swapped_else_to_guard, rw_drop_tail_return, rw_add_tail_return, rw_element_to_index_loop, rw_fuse_loops, rw_late_publication, rw_drop_tail_continue, rw_items_loop, rw_filter_loop, rw_loop_to_update, rw_is_false, rw_hoist_common_tail, rw_sink_common_tail, rw_ifexp_to_if, rw_if_to_ifexp, rw_bool_to_if, rw_kwargs_default, rw_trailing_return, rw_enumerate, rw_return_temp]
 
 
 def _clone(node):
